@@ -15,15 +15,33 @@ CONSTANTS Heartbeats,   \* heartbeat values that may arrive
 VARIABLES freshN,     \* number of strictly increasing heartbeat values observed for x
           freshAt,    \* tick of the last such observation (-1: none)
           topHb,      \* highest heartbeat value observed (0: none)
-          arrivals
+          arrivals,
+          ftimes,     \* ticks of the most recent (at most Window + 2) fresh observations
+          deadEval    \* tick of the last evaluation that found x dead or unknown (-1: none)
 
-dvars == <<vars, freshN, freshAt, topHb, arrivals>>
-DView == dvars
+dvars == <<vars, freshN, freshAt, topHb, arrivals, ftimes, deadEval>>
+\* ftimes / deadEval are read by C11_SteadyObs only, which is evaluated on real traces (TraceDetector,
+\* ObserveDetector), not in the exhaustive model runs: they stay out of the model's fingerprint
+DView == <<vars, freshN, freshAt, topHb, arrivals>>
 
 O == "n1"
 X == "x"
 
-DInit == Init /\ freshN = 0 /\ freshAt = -1 /\ topHb = 0 /\ arrivals = 0
+DInit == Init /\ freshN = 0 /\ freshAt = -1 /\ topHb = 0 /\ arrivals = 0 /\ ftimes = <<>> /\ deadEval = -1
+
+PushTime(f, t) == IF Len(f) >= Window + 2 THEN Append(Tail(f), t) ELSE Append(f, t)
+\* ghost updates shared by the model, the trace specification and the observer
+GhostArrive(h, now) ==
+  /\ freshN' = IF h > topHb THEN freshN + 1 ELSE freshN
+  /\ freshAt' = IF h > topHb THEN now ELSE freshAt
+  /\ topHb' = IF h > topHb THEN h ELSE topHb
+  /\ arrivals' = arrivals + 1
+  /\ ftimes' = IF h > topHb THEN PushTime(ftimes, now) ELSE ftimes
+  /\ deadEval' = deadEval
+GhostEval(now) ==
+  /\ UNCHANGED <<freshN, freshAt, topHb, arrivals, ftimes>>
+  /\ deadEval' = IF X \in st'[O].live THEN deadEval ELSE now
+GhostSame == UNCHANGED <<freshN, freshAt, topHb, arrivals, ftimes, deadEval>>
 
 SynFor(h) == [t |-> "Syn", src |-> "r", dst |-> O, cluster |-> Cluster[O],
               digest |-> [y \in {X} |-> [hb |-> h, gc |-> 0, max |-> 0]]]
@@ -32,15 +50,12 @@ SynFor(h) == [t |-> "Syn", src |-> "r", dst |-> O, cluster |-> Cluster[O],
 Arrive(h) ==
   /\ LET s1 == ReportDigest(BumpHb(st[O], O), O, SynFor(h).digest, clock) IN
      st' = [st EXCEPT ![O] = s1]
-  /\ freshN' = IF h > topHb THEN freshN + 1 ELSE freshN
-  /\ freshAt' = IF h > topHb THEN clock ELSE freshAt
-  /\ topHb' = IF h > topHb THEN h ELSE topHb
-  /\ arrivals' = arrivals + 1
+  /\ GhostArrive(h, clock)
   /\ UNCHANGED <<net, clock, ledger, mid, panic>>
   /\ Step([a |-> "Inject", n |-> O, msg |-> SynFor(h)])
 
-Evaluate == UpdateLiveness(O) /\ UNCHANGED <<freshN, freshAt, topHb, arrivals>>
-Tick(d)  == Advance(d) /\ UNCHANGED <<freshN, freshAt, topHb, arrivals>>
+Evaluate == UpdateLiveness(O) /\ GhostEval(clock)
+Tick(d)  == Advance(d) /\ GhostSame
 
 DNext == (\E h \in Heartbeats : Arrive(h)) \/ Evaluate \/ (\E d \in Advances : Tick(d))
 DSpec == DInit /\ [][DNext]_<<dvars, hist>>
@@ -60,7 +75,7 @@ MaxI == IF MaxInterval > Prior THEN MaxInterval ELSE Prior
 \* phi x max(max_interval, initial_interval) is dead and not live
 C10_Complete ==
   [][ Resetting \/ (EvalNow /\ X \in DOMAIN st[O].ns =>
-        ((freshAt < 0 \/ (clock - freshAt) * PhiD > PhiN * MaxI) => (~IsLive2 /\ (IsDead2 \/ X \notin DOMAIN st'[O].ns)))) ]_dvars
+        ((freshAt < 0 \/ (clock - freshAt) * PhiD > PhiN * MaxI) => (~IsLive2 /\ (IsDead2 \/ X \notin DOMAIN st'[O].ns)))) ]_<<dvars, hist>>
 \* fewer than two usable observations: never live
 C10_TwoObservations == freshN < 2 => ~IsLive
 
@@ -71,7 +86,7 @@ C11_NeedsEvidence == IsLive => freshN >= 2
 C11_StaleIgnored ==
   [][ Resetting \/ ((LastAct.a = "Inject" /\ freshN' = freshN /\ X \in DOMAIN st[O].ns) =>
         /\ st'[O].fd = st[O].fd /\ st'[O].live = st[O].live /\ st'[O].dead = st[O].dead
-        /\ st'[O].ns[X] = st[O].ns[X]) ]_dvars
+        /\ st'[O].ns[X] = st[O].ns[X]) ]_<<dvars, hist>>
 \* C11 (iii) steady heartbeats are never flagged: all sampled intervals >= a, silence and intervals
 \* <= b <= max_interval, and phi >= b / min(a, initial_interval)
 C11_Steady ==
@@ -80,7 +95,24 @@ C11_Steady ==
             a == MinOf({w.win[i] : i \in 1..Len(w.win)})
             b == MaxOf({w.win[i] : i \in 1..Len(w.win)} \cup {clock - w.last})
             m == IF a < Prior THEN a ELSE Prior
-        IN (b <= MaxInterval /\ PhiN * m >= PhiD * b) => IsLive2) ]_dvars
+        IN (b <= MaxInterval /\ PhiN * m >= PhiD * b) => IsLive2) ]_<<dvars, hist>>
+
+\* C11 (iii) stated on observable evidence only: the last (at most Window + 1) gaps between fresh
+\* heartbeats that are short enough to be sampled all lie in [a, b], the newest gap is sampled, the
+\* member was not found dead since its newest fresh heartbeat, silence <= b <= max_interval, and
+\* phi >= b / min(a, initial_interval)  ==>  live after this evaluation
+Gaps == {ftimes[i + 1] - ftimes[i] : i \in 1..(Len(ftimes) - 1)}
+C11_SteadyObs ==
+  [][ Resetting \/ ((EvalNow /\ Len(ftimes) >= 3) =>
+        LET n == Len(ftimes)
+            sampled == {g \in Gaps : g <= MaxInterval}
+            a == MinOf(sampled)
+            b == MaxOf(sampled \cup {clock - ftimes[n]})
+            m == IF a < Prior THEN a ELSE Prior
+        IN (/\ ftimes[n] - ftimes[n - 1] <= MaxInterval
+            /\ deadEval < ftimes[n]
+            /\ b <= MaxInterval
+            /\ PhiN * m >= PhiD * b) => IsLive2) ]_<<dvars, hist>>
 
 DEmitEdge == PrintT("EDGE " \o ToJson([steps |-> hist', expect |-> [nodes |-> Views']]))
 ===============================================================================
